@@ -54,10 +54,11 @@ Proof. intros H. destruct (uidx_from_spec u users 0 H) as (i & A & B & C). exist
 Lemma nth_map_bal (f : string -> Z) users i : (i < List.length users)%nat -> nth i (map f users) 0 = f (nth i users ""%string).
 Proof. intros H. rewrite (nth_indep _ 0 (f ""%string)) by now rewrite map_length. apply map_nth. Qed.
 
-Lemma obond_snap users dens ok st n u : obond (snap users dens ok st) n u = bond_amt n u (bonds st).
+Lemma obond_snap users dens ok st n u : (forall e, In e (bonds st) -> acct (snd (fst e)) = snd (fst e)) ->
+  obond (snap users dens ok st) n u = bond_amt n u (bonds st).
 Proof.
-  unfold obond, bond_amt. simpl. f_equal. f_equal. apply filter_ext. intros e. unfold bmatch, key_eqb.
-  now rewrite (String.eqb_sym n), (String.eqb_sym u).
+  intros Hc. unfold obond, bond_amt. simpl. f_equal. f_equal. apply filter_ext_in. intros e He. unfold bmatch, key_eqb.
+  now rewrite (Hc e He), (String.eqb_sym n), (String.eqb_sym u).
 Qed.
 
 Lemma list_eqb_refl {A} (e : A -> A -> bool) l : (forall x, e x x = true) -> list_eqb e l l = true.
@@ -91,6 +92,7 @@ Variable k : Z.
 Variable users dens : list string.
 Hypothesis Hsep : separated v N Us.
 Hypothesis Hus : users_ok Us.
+Hypothesis Hcan : canonical Us.
 Hypothesis Hnd : NoDup users.
 Hypothesis Hum : users_ok users.
 
@@ -100,11 +102,17 @@ Lemma user_clauses_sound st o u n g :
   g_prev g = snap users dens true st ->
   user_clauses users g (snap users dens (is_ok (step v c st o)) (apply v c st o)) u n = [].
 Proof.
-  intros I Ho Ha Hu Hg. unfold user_clauses. rewrite Hg. simpl o_ok. unfold apply.
+  intros I Ho Ha Hu Hg.
+  assert (HuUs : In u Us) by (destruct o; simpl in *; try discriminate; inversion Ha; subst; tauto).
+  pose proof (Hcan u HuUs) as Hcu.
+  assert (Cb : forall s, Inv c N Us k s -> forall e, In e (bonds s) -> acct (snd (fst e)) = snd (fst e)).
+  { intros s Is e He. destruct (i_bonds _ _ _ _ _ Is e He) as (_ & B & _). now apply Hcan. }
+  unfold user_clauses. cbv zeta. rewrite Hg, Hcu. simpl o_ok. unfold apply.
   assert (Huo : is_user_op o = true) by (destruct o; simpl in *; try discriminate; reflexivity).
   destruct (step v c st o) as [st'| |] eqn:E; simpl is_ok; cbv iota; try (apply cl_nil, same_state_refl).
+  pose proof (step_inv v c N Us k Hsep Hus Hcan st o st' I Ho E) as I'.
   destruct (uidx_spec users u Hu) as (i & Hi & Hn & Hl). rewrite Hi.
-  destruct (user_step v c N Us k Hsep Hus st o st' I Ho Huo E) as [P Q].
+  destruct (user_step v c N Us k Hsep Hus Hcan st o st' I Ho Huo E) as [P Q].
   destruct (own_flow o u n Ha) as (F1 & F2 & F3).
   assert (Hmu : u <> MOD) by now apply Hum.
   apply cl2.
@@ -115,10 +123,13 @@ Proof.
       { intros Heq. apply Nat.eqb_neq in Ej. apply Ej. rewrite <- Hn in Heq.
         apply (proj1 (NoDup_nth users ""%string) Hnd); auto. lia. }
       rewrite Q; [rewrite (F3 _ Hju); lia|]. apply Hum, nth_In. lia.
-    + apply forallb_forall. intros e He. rewrite !obond_snap.
+    + apply forallb_forall. intros e He.
+      assert (Hce : acct (snd (fst e)) = snd (fst e)).
+      { simpl in He. apply in_app_or in He. destruct He as [He|He]; [apply (Cb st I e He)|apply (Cb st' I' e He)]. }
+      rewrite Hce, !obond_snap by (apply Cb; assumption).
       destruct (String.eqb (fst (fst e)) n && String.eqb (snd (fst e)) u)%bool eqn:K; [reflexivity|]. simpl.
       rewrite P, F2; [lia|]. exact K. }
-  unfold obal. simpl o_bals. rewrite !nth_map_bal by lia. rewrite Hn, !obond_snap, P, Q, F1 by exact Hmu. lia.
+  unfold obal. simpl o_bals. rewrite !nth_map_bal by lia. rewrite Hn, !obond_snap by (apply Cb; assumption). rewrite P, Q, F1 by exact Hmu. lia.
 Qed.
 End UserStep.
 
@@ -131,10 +142,10 @@ Proof. intros Hf Hl W. eapply state_clauses_sound; [exact Hl|]. apply (fixed_inv
 (* the pool-native clause (recorded pool bonds move exactly by the ukex entering / leaving the module) holds
    between the snapshots around EVERY operation inside its guard: messages, blocks, proposals, keeper-level LP calls *)
 Lemma pool_native_sound v c N Us k users dens ok ok' st o :
-  separated v N Us -> users_ok Us -> Inv c N Us k st -> op_ok v c N Us st o ->
+  separated v N Us -> users_ok Us -> canonical Us -> Inv c N Us k st -> op_ok v c N Us st o ->
   cl "pool-native" (zsum (map snd (o_dapps (snap users dens ok' (apply v c st o)))) - zsum (map snd (o_dapps (snap users dens ok st)))
                     =? o_mod (snap users dens ok' (apply v c st o)) - o_mod (snap users dens ok st)) = [].
 Proof.
-  intros Hs Hu I Ho. pose proof (apply_ok_inv v c N Us k Hs Hu st o I Ho) as I'.
+  intros Hs Hu Hc I Ho. pose proof (apply_ok_inv v c N Us k Hs Hu Hc st o I Ho) as I'.
   apply cl_nil. rewrite !totals_snap. simpl. pose proof (i_held _ _ _ _ _ I). pose proof (i_held _ _ _ _ _ I'). lia.
 Qed.
